@@ -150,3 +150,77 @@ Example src_similarity_ex :
   Source.compute_similarity_matrix (fun a b => Z.eqb (Z.abs (a - b)) 1) [10; 20; 11; 21; 12]%Z
   = Ok (mk_coo [1; 1; 1; 1; 1; 1]%Q [0; 2; 1; 3; 2; 4] [2; 0; 3; 1; 4; 2] 5 5).
 Proof. vm_compute. reflexivity. Qed.
+
+(* ================= group_sound_events itself ================= *)
+(* scipy's connected_components is a parameter `cc` of the generated definition (what it returns for a matrix:
+   number of components, one label per node).  For EVERY cc the code as written
+     - hands cc the adjacency matrix built by _compute_similarity_matrix (and nothing else);
+     - groups the events by label in one pass over zip(events, labels): one list per label, labels in order of
+       first occurrence, events in input order. *)
+Theorem src_group_sound_events cmp cc evs :
+  Source.group_sound_events cmp cc evs = Ok (dd_values (combine (snd (cc (adjacency cmp evs))) evs)).
+Proof.
+  unfold Source.group_sound_events, Source.compute_similarity_matrix_py. rewrite src_similarity_matrix. cbn [bind].
+  destruct (cc (adjacency cmp evs)) as [ncomp labs]. cbn [snd].
+  match goal with |- bind (fold_loop _ _ ?body) _ = _ =>
+    assert (H : forall (es : list Z) (ls : list nat) acc,
+      fold_loop (S := list (nat * Z)) (R := list (list Z)) (combine es ls) acc body
+      = Ok (LDone (acc ++ combine ls es)))
+  end.
+  { induction es as [|e es IH]; intros ls acc; [destruct ls; cbn; rewrite app_nil_r; reflexivity|].
+    destruct ls as [|l ls]; [cbn; rewrite app_nil_r; reflexivity|].
+    cbn [combine fold_loop bind]. rewrite IH, <- app_assoc. reflexivity. }
+  rewrite H. reflexivity.
+Qed.
+
+(* the log-based reading of the defaultdict against the position-based grouping loop of the model *)
+Definition lift (evs : list Z) (d : list (nat * list nat)) : list (nat * list Z) :=
+  map (fun p => (fst p, map (ev evs) (snd p))) d.
+
+Lemma dd_insert_lift evs l i d : dd_insert l (ev evs i) (lift evs d) = lift evs (insert_group l i d).
+Proof.
+  induction d as [|[l' m] d IH]; [reflexivity|]. cbn [lift map insert_group dd_insert fst snd].
+  destruct (Nat.eqb l l').
+  - cbn [map fst snd]. rewrite map_app. reflexivity.
+  - cbn [map fst snd]. f_equal. exact IH.
+Qed.
+
+Lemma fold_lift evs : forall (s labs : list nat) d,
+  fold_left (fun d p => dd_insert (fst p) (snd p) d) (combine labs (map (ev evs) s)) (lift evs d)
+  = lift evs (fold_left (fun gs p => insert_group (snd p) (fst p) gs) (combine s labs) d).
+Proof.
+  induction s as [|i s IH]; intros labs d; [destruct labs; reflexivity|].
+  destruct labs as [|l labs]; [reflexivity|].
+  cbn [map combine fold_left fst snd]. rewrite dd_insert_lift. apply IH.
+Qed.
+
+Theorem dd_values_group_by_loop evs labs : length labs = length evs ->
+  dd_values (combine labs evs) = map (map (ev evs)) (group_by_loop labs).
+Proof.
+  intro Hlen. unfold dd_values, group_by_loop.
+  rewrite <- (map_nth_seq evs) at 1. fold (ev evs). rewrite <- Hlen.
+  change (@nil (nat * list Z)) with (lift evs []). rewrite fold_lift. unfold lift. rewrite !map_map. reflexivity.
+Qed.
+
+(* with a component labelling of the right length the result is the model's grouping loop over that labelling,
+   events in place of their positions *)
+Theorem src_group_sound_events_loop cmp cc evs :
+  length (snd (cc (adjacency cmp evs))) = length evs ->
+  Source.group_sound_events cmp cc evs = Ok (map (map (ev evs)) (group_by_loop (snd (cc (adjacency cmp evs))))).
+Proof. intro H. rewrite src_group_sound_events, dd_values_group_by_loop by exact H. reflexivity. Qed.
+
+(* in particular with the model's label-merging pass over the edges the matrix encodes *)
+Theorem src_group_sound_events_model cmp evs :
+  let n := length evs in
+  let cc := fun m : coo => (0, labels (Z.to_nat (coo_rows m)) (edges_of n (rel_on cmp evs))) in
+  Source.group_sound_events cmp cc evs = Ok (map (map (ev evs)) (group_by_loop (labels n (edges_of n (rel_on cmp evs))))).
+Proof.
+  intros n cc. rewrite src_group_sound_events_loop; subst cc; cbn [snd adjacency coo_rows]; rewrite Nat2Z.id.
+  - reflexivity.
+  - apply labels_length.
+Qed.
+
+Example src_group_ex :
+  Source.group_sound_events (fun a b => Z.eqb (Z.abs (a - b)) 1) (fun m => (2, [0; 1; 0; 1; 0])) [10; 20; 11; 21; 12]%Z
+  = Ok [[10; 11; 12]; [20; 21]]%Z.
+Proof. vm_compute. reflexivity. Qed.
